@@ -108,9 +108,12 @@ func runHist(h *Hist) (string, string) {
 			if h.CRL {
 				kind = "rx1"
 			}
-			return kind, xs[op.Cert].crt.SerialNumber.String() // Validate canonicalises every spelling to this
+			if op.Kind == "revacme" {
+				return kind, xs[op.Cert].crt.SerialNumber.String()
+			}
+			return kind, spellSerial(xs[op.Cert].crt.SerialNumber, op.Spell) // as sent; the model applies Validate
 		case "revssh":
-			return "rs", spellSSHSerial(sshs[op.Cert].crt.Serial, op.Spell) // stored as sent
+			return "rs", spellSSHSerial(sshs[op.Cert].crt.Serial, op.Spell) // as sent; the model applies Validate
 		case "renew", "rekey":
 			return "nx", xs[op.Cert].crt.SerialNumber.String()
 		default:
@@ -225,7 +228,11 @@ func runHist(h *Hist) (string, string) {
 			ev := waitFor(t)
 			if ev.kind == "done" {
 				finish(t, ev, false, pos)
-				answers[t] = "early-" + answers[t]
+				if isRevoke(h.Ops[t].Kind) && ev.code == 400 {
+					answers[t] = "bad" // refused by the request's Validate before any storage call
+				} else {
+					answers[t] = "early-" + answers[t]
+				}
 			} else {
 				state[t] = 1
 			}
@@ -263,14 +270,11 @@ func runHist(h *Hist) (string, string) {
 	in := fmt.Sprintf("h reqs=%s evs=%s", strings.Join(reqIn, ";"), c.List(evs))
 	impl := strings.Join(answers, ",") + " x=" + dumpTable(e, "revoked_x509_certs") + " s=" + dumpTable(e, "revoked_ssh_certs")
 	// the property itself on the implementation's answers: a renewal that started after a
-	// revocation of the same certificate was acknowledged must not be allowed (SSH: only when the
-	// revocation used the canonical decimal serial, see D13); a revocation acknowledged twice
+	// revocation of the same certificate (in any accepted spelling of its serial) was acknowledged
+	// must not be allowed; a revocation acknowledged twice
 	for i := 0; i < n; i++ {
 		oi := h.Ops[i]
 		if !isRevoke(oi.Kind) || answers[i] != "ok" {
-			continue
-		}
-		if oi.Kind == "revssh" && oi.Spell != 0 {
 			continue
 		}
 		for j := 0; j < n; j++ {
@@ -281,7 +285,7 @@ func runHist(h *Hist) (string, string) {
 			if !isRevoke(oj.Kind) && startAt[j] > doneAt[i] && answers[j] == "allowed" {
 				impl += " VIOLATION=renewed-after-acknowledged-revocation"
 			}
-			if isRevoke(oj.Kind) && answers[j] == "ok" && (oj.Kind != "revssh" || oj.Spell == 0) && j > i {
+			if isRevoke(oj.Kind) && answers[j] == "ok" && j > i {
 				impl += " VIOLATION=two-acknowledged-revocations"
 			}
 		}
@@ -312,9 +316,9 @@ func cornerHists() []*Hist {
 		{NX: 1, Ops: []OpSpec{{"revtok", 0, 0, "n"}, {"revmtls", 0, 1, "n"}, {"renew", 0, 0, "n"}}, Sched: []int{0, 1, 2, 2, 1, 0, 0, 1, 2}},
 		// stop between CAS and answer
 		{NX: 1, Ops: []OpSpec{{"revtok", 0, 0, "n"}, {"renew", 0, 0, "n"}, {"revtok", 0, 0, "n"}}, Sched: []int{0, 0, -1, 1, 1, 1, 2, 2, 2}},
-		// SSH: canonical revocation blocks renew and rekey, also after a restart; non-canonical does not (D13)
-		{NS: 2, Ops: []OpSpec{{"renewssh", 0, 0, "n"}, {"revssh", 0, 0, "n"}, {"renewssh", 0, 0, "n"}, {"rekeyssh", 0, 0, "n"}, {"revssh", 0, 0, "n"}, {"revssh", 1, 1, "n"}, {"renewssh", 1, 0, "n"}, {"renewssh", 0, 0, "n"}},
-			Sched: append(append(seqSched(7), -1), 7, 7, 7)},
+		// SSH: a revocation in any decimal spelling blocks renew and rekey, also after a restart; other spellings are refused
+		{NS: 2, Ops: []OpSpec{{"renewssh", 0, 0, "n"}, {"revssh", 0, 0, "n"}, {"renewssh", 0, 0, "n"}, {"rekeyssh", 0, 0, "n"}, {"revssh", 0, 0, "n"}, {"revssh", 1, 1, "n"}, {"renewssh", 1, 0, "n"}, {"renewssh", 0, 0, "n"}, {"revssh", 1, 2, "n"}, {"revssh", 1, 3, "n"}, {"revssh", 1, 4, "n"}},
+			Sched: append(append(append(seqSched(7), -1), 7, 7, 7), 8, 8, 8, 9, 9, 9, 10, 10, 10)},
 		// generate-on-revoke: regeneration failure after the record is stored
 		{CRL: true, NX: 2, Ops: []OpSpec{{"revtok", 0, 0, "c"}, {"renew", 0, 0, "n"}, {"revtok", 0, 0, "n"}, {"revmtls", 1, 0, "n"}, {"renew", 1, 0, "n"}}, Sched: seqSched(5)},
 	}
@@ -333,7 +337,7 @@ func genHist(r *c.Rng) *Hist {
 			op.Cert = r.Intn(h.NS)
 			op.Kind = c.Pick(r, []string{"revssh", "revssh", "renewssh", "rekeyssh"})
 			if op.Kind == "revssh" && r.Chance(1, 3) {
-				op.Spell = 1 + r.Intn(3)
+				op.Spell = 1 + r.Intn(5)
 			}
 		} else {
 			op.Cert = r.Intn(h.NX)
